@@ -26,7 +26,7 @@ def ensure() -> None:
         raise SystemExit(f"INCONCLUSIVE reason=no lsst.daf.relation under {pydir}")
     deps = os.path.join(VERIF, ".deps")
     if os.path.isdir(deps) and deps not in sys.path:
-        sys.path.insert(0, deps)
+        sys.path.append(deps)  # after site-packages: never shadow the interpreter's own packages
     if pydir in sys.path:
         sys.path.remove(pydir)
     sys.path.insert(0, pydir)
